@@ -4,7 +4,9 @@ Everything here works on the JSON written by the `amfacts` driver: MIR bodies
 with resolved callees, explicit unwind edges and elaborated drops; ADT / impl /
 fn-signature / const facts.  Nothing executes the analysed crate.
 """
+import copy
 import json
+import os
 import re
 from collections import defaultdict, deque
 
@@ -863,12 +865,72 @@ STRUCTURAL_TRAITS = ('std::fmt::Debug', 'std::fmt::Display', 'std::hash::Hash', 
                      'std::cmp::PartialOrd', 'std::cmp::Ord', 'std::clone::Clone', 'std::default::Default')
 
 
+_REF = [False]
+_KEY = [None]
+
+
+def _norm_key():
+    if _KEY[0] is None:
+        import hashlib
+        h = hashlib.sha256()
+        here = os.path.dirname(os.path.abspath(__file__))
+        for f in ('inline.py', 'normalize.py', 'mir.py', os.path.join('..', 'reference_fns.json')):
+            with open(os.path.join(here, f), 'rb') as fh:
+                h.update(fh.read())
+        _KEY[0] = h.hexdigest()[:12]
+    return _KEY[0]
+
+
+def reference_fns():
+    """{'*': set of fn def-paths of the reference tree, cfg: set, 'sig': {path: [inputs, output]}} or None"""
+    if _REF[0] is False:
+        p = os.path.join(os.path.dirname(os.path.dirname(os.path.abspath(__file__))), 'reference_fns.json')
+        if os.path.exists(p):
+            d = json.load(open(p))
+            _REF[0] = {'sig': d['sig'], '*': set(d['all'])}
+            for c, v in d.get('per_cfg', {}).items():
+                _REF[0][c] = set(v)
+        else:
+            _REF[0] = None
+    return _REF[0]
+
+
 class Facts:
     def __init__(self, path, cfg):
         with open(path) as f:
-            raw = json.load(f)
+            text = f.read()
+        raw = json.loads(text)
         self.cfg = cfg
         self.crate = raw['crate']
+        self.renamed = {}
+        self.inlined = []
+        self._views = {}
+        ref = reference_fns()
+        if ref is not None and not os.environ.get('AM_NO_INLINE'):
+            # the normal form is cached next to the facts (keyed by the code that produces it)
+            cpath = '%s.norm-%s.json' % (path[:-5] if path.endswith('.json') else path, _norm_key())
+            cached = None
+            if os.path.exists(cpath):
+                try:
+                    with open(cpath) as f:
+                        cached = json.load(f)
+                except Exception:
+                    cached = None
+            if cached is not None:
+                raw, self.renamed, self.inlined = cached['raw'], cached['renamed'], [tuple(x) for x in cached['inlined']]
+            else:
+                raw = self._normalise(raw, text, ref)
+                try:
+                    tmp = cpath + '.%d.tmp' % os.getpid()
+                    with open(tmp, 'w') as f:
+                        json.dump({'raw': raw, 'renamed': self.renamed, 'inlined': self.inlined}, f)
+                    os.replace(tmp, cpath)
+                    import glob
+                    for old in glob.glob('%s.norm-*.json' % (path[:-5] if path.endswith('.json') else path)):
+                        if old != cpath:
+                            os.remove(old)
+                except OSError:
+                    pass
         self.bodies = {}
         self.by_owner = defaultdict(list)
         for b in raw['bodies']:
@@ -903,6 +965,91 @@ class Facts:
         if not a:
             return None
         return [v['name'] for v in sorted(a['variants'], key=lambda v: v['idx'])]
+
+    # ---- helper extraction / renames (see inline.py) --------------------------
+    def _normalise(self, raw, text, ref):
+        """(1) a reference function that disappeared while exactly one new function with the same signature
+        appeared is a rename: the new def-path is rewritten to the old one everywhere; (2) every other new
+        function is inlined into its direct callers and, if it had any, dropped as a body of its own."""
+        import inline
+        is_fn = lambda b: b['kind'] in ('Fn', 'AssocFn') and b['promoted'] is None
+        have = {b['path'] for b in raw['bodies'] if is_fn(b)}
+        sigs = {f['path']: f for f in raw['fns']}
+        # the reference set covers every configuration; compare within what this configuration can contain
+        new = sorted(have - ref['*'])
+        gone = sorted(ref.get(self.cfg, set()) - have)
+        if new and gone:
+            def sig(p):
+                f = sigs.get(p)
+                return (tuple(f['inputs']), f['output'], f.get('safety')) if f else None
+            pairs = {}
+            for g in gone:
+                gs = ref['sig'].get(g)
+                cands = [n for n in new if sig(n) is not None and gs is not None and list(sig(n)[0]) == gs[0] and sig(n)[1] == gs[1]]
+                if len(cands) == 1:
+                    pairs.setdefault(cands[0], []).append(g)
+            ren = {n: gs[0] for n, gs in pairs.items() if len(gs) == 1}
+            if ren:
+                for n, g in ren.items():
+                    text = re.sub(r'(?<![\w:])' + re.escape(n) + r'(?![\w])', lambda _m, g=g: g, text)
+                raw = json.loads(text)
+                self.renamed = ren
+                have = {b['path'] for b in raw['bodies'] if is_fn(b)}
+                new = sorted(have - ref['*'])
+        import normalize
+        if not new:
+            raw = dict(raw)
+            raw['bodies'] = [self._norm_body(b, normalize) for b in raw['bodies']]
+            return raw
+        raws = {b['path']: b for b in raw['bodies']}
+        newset = set(new)
+        log = []
+        out = []
+        for b in raw['bodies']:
+            if b['kind'] in ('Fn', 'AssocFn', 'Closure') and b['promoted'] is None and b['path'] not in newset:
+                out.append(inline.inline_into(b, raws, lambda p: p in newset, log=log))
+            else:
+                out.append(b)
+        used = {}
+        for caller, callee in log:
+            used.setdefault(callee, caller)
+        # a new function that was inlined somewhere lives on in its callers; one that is only used as a value stays
+        keep = []
+        for b in out:
+            if b['path'] in used and b['path'] in newset:
+                continue
+            if b['kind'] == 'Closure' and b['root'] in used and b['root'] in newset:
+                b = dict(b)
+                host = raws.get(used[b['root']])
+                b['root'] = host['root'] if host and host['kind'] == 'Closure' else used[b['root']]
+            keep.append(b)
+        raw = dict(raw)
+        raw['bodies'] = [self._norm_body(b, normalize) for b in keep]
+        self.inlined = sorted(used.items())
+        return raw
+
+    @staticmethod
+    def _norm_body(b, normalize):
+        if b['kind'] in ('Fn', 'AssocFn', 'Closure') and b['promoted'] is None and not os.environ.get('AM_NO_NORMALIZE'):
+            b = copy.deepcopy(b) if 'inlined' not in b else b
+            normalize.normalize(b)
+        return b
+
+    def view(self, path, inline_also=()):
+        """the body `path` with the named (reference) functions inlined into it as well: lets a rule state an
+        obligation on an entry point independently of whether a small wrapper exists between it and the callee"""
+        b = self.bodies.get(path)
+        if b is None:
+            return None
+        names = {n for n in inline_also if n in self.bodies}
+        if not names:
+            return b
+        key = (path, tuple(sorted(names)))
+        if key not in self._views:
+            import inline
+            raws = {p: x.raw for p, x in self.bodies.items()}
+            self._views[key] = Body(inline.inline_into(b.raw, raws, lambda p: p in names), self)
+        return self._views[key]
 
     # ---- lookup ------------------------------------------------------------
     def body(self, path):
